@@ -83,6 +83,7 @@ type c08Obs struct {
 	StateEq  bool     `json:"state_eq"`
 	CoreEq   bool     `json:"core_eq"`
 	PanicOOG bool     `json:"panic_oog"`
+	PanicInt bool     `json:"panic_int"` // sdkmath "integer overflow" (bank supply beyond 256 bits)
 	Method   string   `json:"method"`
 	UnpackOK bool     `json:"unpack_ok"`
 	Args     []c08Arg `json:"args"`
@@ -277,6 +278,7 @@ func (w *world) runCase(in c08In) c08Obs {
 		obs.Class = "panic"
 		_, obs.PanicOOG = pval.(storetypes.ErrorOutOfGas)
 		obs.Note = note(fmt.Sprintf("%T %v", pval, pval))
+		obs.PanicInt = strings.Contains(obs.Note, "integer overflow")
 		obs.Fwd = in.Gas
 		for _, f := range ft.frames {
 			if f.To == pcAddr {
@@ -701,12 +703,31 @@ func (w *world) openers() []c08In {
 		c08In{2, "call", "0", qReq + 1000, q, "opener/oracle-gas-inside-body"},
 		c08In{2, "top", "1000000000000", 1_000_000, q, "opener/oracle-query-with-value"},
 		c08In{2, "top", "0", 1_000_000, q, "opener/oracle-ok"},
+		// bank supply of the ERC20-born denom is 2^255: minting 2^255 more needs 257 bits
+		c08In{0, "top", "0", 3_000_000, pack(ftABI, "sendToBank", w.ercErc20, two255, to), "opener/sendToBank-supply-overflow"},
+		c08In{0, "call", "0", 3_000_000, pack(ftABI, "sendToBank", w.ercErc20, two255, to), "opener/sendToBank-supply-overflow"},
+		c08In{0, "top", "0", 3_000_000, pack(ftABI, "sendToBank", w.ercErc20, new(big.Int).Sub(two255, big.NewInt(5_000_001)), to), "opener/sendToBank-supply-just-fits"},
 	)
+	// every ABI method with arguments that let it succeed, in every call kind: each state-changing
+	// method meets each read-only context, each query each kind, on every run
+	g := &gen{w: w, r: NewRng(0xC08), happy: true}
+	for pc := 0; pc < 3; pc++ {
+		a := abiOf(pc)
+		for _, name := range sortedMethods(a) {
+			bz, err := a.Pack(name, g.argsFor(pc, name)...)
+			if err != nil {
+				continue
+			}
+			for _, kind := range []string{"top", "call", "static", "delegate", "callcode", "nested"} {
+				out = append(out, c08In{pc, kind, "0", 3_000_000, hex.EncodeToString(bz), "opener/matrix-" + kind})
+			}
+		}
+	}
 	return out
 }
 
 func TestC08(t *testing.T) {
-	cfg := LoadCfg(t, 560, 12000)
+	cfg := LoadCfg(t, 500, 8000)
 	w := newWorld(t)
 	em := NewEmitter(t, cfg.Out)
 	defer em.Close()
